@@ -16,17 +16,19 @@ res = {"name": name, "property": prop, "diff": diff}
 def sh(cmd, **kw):
     return subprocess.run(cmd, capture_output=True, text=True, **kw)
 try:
-    shutil.copy(demo, os.path.join(wt, "DEMO.py"))
-    d0 = sh(["/venv/bin/python", "DEMO.py"], cwd=wt)
-    res["demo_clean_exit"] = d0.returncode
+    if demo != "-":
+        shutil.copy(demo, os.path.join(wt, "DEMO.py"))
+        d0 = sh(["/venv/bin/python", "DEMO.py"], cwd=wt)
+        res["demo_clean_exit"] = d0.returncode
     a = sh(["git", "apply", "--3way", diff], cwd=wt) if False else sh(["git", "apply", diff], cwd=wt)
     res["applies"] = a.returncode == 0
     if a.returncode != 0:
         res["apply_err"] = a.stderr[-300:]
     else:
-        d1 = sh(["/venv/bin/python", "DEMO.py"], cwd=wt)
-        res["demo_mutant_exit"] = d1.returncode
-        res["demo_mutant_tail"] = (d1.stdout + d1.stderr)[-300:]
+        if demo != "-":
+            d1 = sh(["/venv/bin/python", "DEMO.py"], cwd=wt)
+            res["demo_mutant_exit"] = d1.returncode
+            res["demo_mutant_tail"] = (d1.stdout + d1.stderr)[-300:]
         b = sh(["/verif/tools/baseline.py", wt])
         res["baseline_ok"] = b.returncode == 0
         res["checks"] = {}
